@@ -1,5 +1,7 @@
 import MirProofs.Lemmas.SeparationLS
 import MirProofs.Lemmas.SeparationLSAny
+import MirProofs.Lemmas.SeparationDb
+import Mathlib.Data.List.Forall2
 import MirProofs.Props.C19
 /-!
   C19 (exact least-squares projection) — DESIGN §5 C19, deepening.
@@ -325,6 +327,26 @@ theorem bestPermMul_maximises (n : Nat) (S : Nat → Nat → Rat) (q : List Nat)
     prodFrom S 0 q ≤ prodFrom S 0 (bestPermMul n S) :=
   bestPermMul_max n S q hq
 
+/-- **argmax of the mean SIR in dB = argmax of the product of the SIR ratios.**  Over the reals, for positive
+    ratios, the permutation the exact model selects is `perms[np.argmax(mean_sir)]` with `mean_sir` the mean of
+    `10·log10` of the ratios (`meanSirDb`): the FIRST permutation in `itertools.permutations` order of maximal mean
+    SIR in decibel.  (`Σ_j 10 log10 S_j = 10 log10 Π_j S_j`, `log10` strictly increasing.) -/
+theorem bestPermMul_is_first_argmax_db (n : Nat) (hn : 0 < n) (S : Nat → Nat → Rat)
+    (hpos : ∀ e < n, ∀ j < n, 0 < S e j) :
+    ∃ pre post, perms (List.range n) = pre ++ bestPermMul n S :: post ∧
+      (∀ q ∈ pre, meanSirDb n S q < meanSirDb n S (bestPermMul n S)) ∧
+      (∀ q ∈ post, meanSirDb n S q ≤ meanSirDb n S (bestPermMul n S)) :=
+  bestPermMul_first_argmax_db n hn S hpos
+
+/-- the two orders agree on any two assignments -/
+theorem mean_db_le_iff_prod_le (n : Nat) (hn : 0 < n) (S : Nat → Nat → Rat) (hpos : ∀ e < n, ∀ j < n, 0 < S e j)
+    (p q : List Nat) (hp : p.Perm (List.range n)) (hq : q.Perm (List.range n)) :
+    meanSirDb n S p ≤ meanSirDb n S q ↔ prodFrom S 0 p ≤ prodFrom S 0 q :=
+  meanSirDb_le_iff n hn S hpos hp hq
+
+example : meanSirDb 2 (fun _ _ => 10) [0, 1] = 10 := by
+  simp [meanSirDb, sumDbFrom]
+
 /-- END TO END (estimate): every output of the exact `bss_eval_sources` — SDR, SIR, SAR of every source and the
     permutation, with or without `compute_permutation` — is unchanged when one estimated source is multiplied
     by `c ≠ 0`. -/
@@ -474,6 +496,35 @@ theorem projectAny_extends_project (refs : List (List Rat)) (est : List Rat) (fl
   obtain ⟨x, hx, rfl⟩ := Option.map_eq_some_iff.1 h
   simp only [projectAny, projectOnAny, solveAny_extends_solve _ _ _ hx, Option.map_some]
 
+/-- **ANY solution of the normal equations gives the same projected signal**: if `c` (one coefficient per delayed
+    reference) satisfies `G c = D` — for instance the minimum-norm solution `np.linalg.lstsq` returns on a singular
+    system — then `Σ c_l B_l` is exactly the signal the model's fall-back returns.  So the choice "free unknowns = 0"
+    of `solveAny?` is immaterial for `_project`. -/
+theorem projectAny_eq_of_solution (refs : List (List Rat)) (est : List Rat) (flen : Nat) (c : List Rat)
+    (hc : c.length = refs.length * flen)
+    (hsol : mulVec (gram (basis ((refs.headD []).length + flen - 1) flen refs)) c =
+      dots (basis ((refs.headD []).length + flen - 1) flen refs) (est ++ zeros (flen - 1))) :
+    projectAny refs est flen =
+      some (padd (lincomb c (basis ((refs.headD []).length + flen - 1) flen refs))
+        (zeros (est ++ zeros (flen - 1)).length)) := by
+  set B := basis ((refs.headD []).length + flen - 1) flen refs with hB
+  apply projectOnAny_eq_of_solution ((refs.headD []).length + flen - 1) B
+    (fun b hb => length_of_mem_basis hb) _ c (by rw [hc, hB, length_basis])
+  intro u hu
+  obtain ⟨i, hi, rfl⟩ := List.getElem_of_mem hu
+  have h1 : (mulVec (gram B) c)[i]'(by simp [mulVec, gram, hi]) =
+      (dots B (est ++ zeros (flen - 1)))[i]'(by simp [hi]) := by simp [hsol]
+  simp only [mulVec, gram, dots, List.getElem_map] at h1
+  have h2 := dot_dots_eq B[i] B c
+  simp only [dots] at h2
+  rw [← h2, h1, dot_comm]
+
+/-- the signals of two solutions cannot be told apart by any vector, whatever the lengths involved -/
+theorem normal_equations_signal_unique (B : List (List Rat)) (se x x' : List Rat)
+    (hx : ∀ u ∈ B, dot u (lincomb x B) = dot u se) (hx' : ∀ u ∈ B, dot u (lincomb x' B) = dot u se)
+    (w : List Rat) : dot (lincomb x B) w = dot (lincomb x' B) w :=
+  normal_solutions_same_signal B se x x' hx hx' w
+
 /-- the multichannel fall-back (`_project_images` through `lstsq`) is total as well -/
 theorem projectImagesAny_total (rows es : List (List Rat)) (flen : Nat) :
     (projectImagesAny rows es flen).isSome :=
@@ -516,6 +567,59 @@ theorem projectImages_homogeneous (rows : List (List Rat)) (flen : Nat) (c : Rat
         cases projectImages rows es flen with
         | none => rfl
         | some ps => rfl
+
+/-- `_project_images` succeeds exactly when `_project` succeeds on every channel, and then returns the channel
+    projections in order. -/
+theorem projectImages_channelwise (rows : List (List Rat)) (flen : Nat) : ∀ (es ps : List (List Rat)),
+    projectImages rows es flen = some ps ↔ List.Forall₂ (fun e p => project rows e flen = some p) es ps
+  | [], ps => by
+      rw [projectImages_nil]
+      constructor
+      · intro h; cases h; exact List.Forall₂.nil
+      · intro h; cases h; rfl
+  | e :: es, ps => by
+      rw [projectImages_cons]
+      constructor
+      · intro h
+        cases hp : project rows e flen with
+        | none => simp [hp] at h
+        | some p =>
+          cases hq : projectImages rows es flen with
+          | none => simp [hp, hq] at h
+          | some qs =>
+            simp only [hp, hq, Option.bind_some, Option.map_some, Option.some.injEq] at h
+            subst h
+            exact List.Forall₂.cons hp ((projectImages_channelwise rows flen es qs).1 hq)
+      · intro h
+        cases h with
+        | cons h1 h2 =>
+          rw [h1, (projectImages_channelwise rows flen es _).2 h2]
+          rfl
+
+/-- NORMAL EQUATIONS for images: the residual of every projected channel is orthogonal to every delayed reference
+    channel. -/
+theorem projectImages_normal_equations (rows es ps : List (List Rat)) (flen : Nat)
+    (h : projectImages rows es flen = some ps) :
+    ps.length = es.length ∧ ∀ ep ∈ es.zip ps, ∀ r ∈ rows, ∀ d < flen,
+      dot (delayed ((rows.headD []).length + flen - 1) d r) (vsub (ep.1 ++ zeros (flen - 1)) ep.2) = 0 := by
+  have hf := (projectImages_channelwise rows flen es ps).1 h
+  obtain ⟨hlen, hz⟩ := List.forall₂_iff_zip.1 hf
+  refine ⟨hlen.symm, ?_⟩
+  rintro ⟨e, p⟩ hep r hr d hd
+  exact project_normal_equations rows e flen p (hz hep) r hr d hd
+
+/-- LEAST SQUARES for images: no combination of the delayed reference channels is closer to a channel of the
+    estimate than its projection. -/
+theorem projectImages_least_squares (rows es ps : List (List Rat)) (flen : Nat)
+    (h : projectImages rows es flen = some ps) (c : List Rat) :
+    ∀ ep ∈ es.zip ps,
+      dot (vsub (ep.1 ++ zeros (flen - 1)) ep.2) (vsub (ep.1 ++ zeros (flen - 1)) ep.2) ≤
+        dot (vsub (ep.1 ++ zeros (flen - 1)) (lincomb c (basis ((rows.headD []).length + flen - 1) flen rows)))
+          (vsub (ep.1 ++ zeros (flen - 1)) (lincomb c (basis ((rows.headD []).length + flen - 1) flen rows))) := by
+  have hf := (projectImages_channelwise rows flen es ps).1 h
+  obtain ⟨-, hz⟩ := List.forall₂_iff_zip.1 hf
+  rintro ⟨e, p⟩ hep
+  exact project_least_squares rows e flen p (hz hep) c
 
 example : projectImages [[1, 2, 0, -1], [0, 1, 1, 3]] [[2, 1, 0, 5], [4, 2, 0, 10]] 2 =
     some [[31/76, 131/76, -11/38, 369/76, 11/76], [31/38, 131/38, -11/19, 369/38, 11/38]] := by
